@@ -45,7 +45,14 @@ type c15Prog struct {
 // ---------------------------------------------------------------------------------------------
 // generator
 
-func genC15Op(multi int, allowEmpty bool) func(t *rapid.T) c15Op {
+func genC15Op(multi int, allowEmpty bool, pool []string) func(t *rapid.T) c15Op {
+	key := func(t *rapid.T) string {
+		// half of the keys come from the initial parent content so that shadowing happens
+		if len(pool) > 0 && rapid.Bool().Draw(t, "frompool") {
+			return rapid.SampledFrom(pool).Draw(t, "poolkey")
+		}
+		return genKeyHex(t, "k", 1, 3)
+	}
 	return func(t *rapid.T) c15Op {
 		var o c15Op
 		o.Op = rapid.SampledFrom([]string{"get", "has", "set", "set", "set", "del", "del", "iter", "iter", "open", "step", "step", "close", "write", "wrap", "discard"}).Draw(t, "op")
@@ -54,15 +61,15 @@ func genC15Op(multi int, allowEmpty bool) func(t *rapid.T) c15Op {
 		}
 		switch o.Op {
 		case "get", "has", "del":
-			o.K = genKeyHex(t, "k", 1, 3)
+			o.K = key(t)
 		case "set":
-			o.K = genKeyHex(t, "k", 1, 3)
+			o.K = key(t)
 			o.V = genValHex(t, "v", allowEmpty)
 		case "iter", "open":
 			o.S, o.E = genBound(t, "s"), genBound(t, "e")
 			o.Rev = rapid.Bool().Draw(t, "rev")
 			o.It = rapid.IntRange(0, 2).Draw(t, "slot")
-			if o.Op == "iter" && rapid.IntRange(0, 3).Draw(t, "full") == 0 {
+			if o.Op == "iter" && rapid.IntRange(0, 2).Draw(t, "full") == 0 {
 				o.S, o.E = nil, nil
 			}
 		case "step":
@@ -122,7 +129,14 @@ func genC15(t *rapid.T, tier string) interface{} {
 	if tier == "thorough" {
 		maxOps = 80
 	}
-	p.Ops = rapid.SliceOfN(rapid.Custom(genC15Op(p.NStores, allowEmpty)), 1, maxOps).Draw(t, "ops")
+	var pool []string
+	for _, in := range p.Init {
+		for _, kv := range in {
+			pool = append(pool, kv.K)
+		}
+	}
+	minOps := rapid.SampledFrom([]int{1, 8, 16}).Draw(t, "minops") // rapid's slices are short on average; shrinks towards 1
+	p.Ops = rapid.SliceOfN(rapid.Custom(genC15Op(p.NStores, allowEmpty, pool)), minOps, maxOps).Draw(t, "ops")
 	return p
 }
 
